@@ -30,7 +30,10 @@ echo "== demo with change (expect FAIL)"
 tail -8 $OUT/.demo_patched.txt
 echo "$PLACES" | while read s d; do [ -n "$d" ] && rm -f "$d"; done
 echo "== suite with change (demo removed)"
-flock /tmp/seed5/regproc.lock bash -c 'for m in . ./cmd/application ./cmd/registration-server ./util/station-debug; do (cd '$WT'/$m && go build ./... && go test -vet=off -count=1 -timeout 25m ./... 2>&1 | grep -v "^ok\|no test files"); done' > $OUT/.suite.txt 2>&1
+# (only pkg/regserver/regprocessor binds fixed ports: it runs under the shared lock, everything else runs without it)
+( cd $WT && go build ./... && go test -vet=off -count=1 -timeout 10m $(go list ./... | grep -v pkg/regserver/regprocessor) 2>&1 | grep -v "^ok\|no test files"
+  flock /tmp/seed5/regproc.lock go test -vet=off -count=1 -timeout 5m ./pkg/regserver/regprocessor/ 2>&1 | grep -v "^ok\|no test files"
+  for m in ./cmd/application ./cmd/registration-server ./util/station-debug; do (cd $WT/$m && go build ./... && go test -vet=off -count=1 -timeout 10m ./... 2>&1 | grep -v "^ok\|no test files"); done ) > $OUT/.suite.txt 2>&1
 cat $OUT/.suite.txt | grep -- "--- FAIL\|^FAIL\|panic\|build failed\|cannot\|undefined" | head -20
 NF=$(grep -- "--- FAIL" $OUT/.suite.txt | grep -v TestConjureLibConfigResolveBlocklisted | wc -l)
 BUILD=$(grep -c "build failed\|undefined:\|cannot use" $OUT/.suite.txt)
